@@ -79,7 +79,9 @@ theorem allIn_step (op : Op) (g : String) (s : Store) (ht : op.target = g) (hk :
     | none => exact e _
     | some p => simp only; split; exact h; exact e _
   | updateNodeProperty g0 nid k v =>
-    simp only [step, updateNodeProperty]
+    simp only [step]
+    refine assertVal_pred (AllIn g) _ s _ h ?_
+    simp only [updateNodeProperty]
     split
     · exact h
     · simp only [Op.keepsGraphId, bne_iff_ne, ne_eq] at hk
@@ -100,7 +102,9 @@ theorem allIn_step (op : Op) (g : String) (s : Store) (ht : op.target = g) (hk :
           · exact allIn_updNode g s i _ (fun a => AMap.get_erase_ne _ _ _ hkg) h
           · exact h
   | updateNodesProperty g0 k v =>
-    simp only [step, updateNodesProperty]
+    simp only [step]
+    refine assertVal_pred (AllIn g) _ s _ h ?_
+    simp only [updateNodesProperty]
     split
     · exact h
     · split
@@ -116,7 +120,9 @@ theorem allIn_step (op : Op) (g : String) (s : Store) (ht : op.target = g) (hk :
       exact withNode_pred (AllIn g) s g0 nid _ h
         (fun i _ => allIn_updNode g s i _ (fun a => AMap.get_update_not_mem _ _ _ (AMap.not_mem_keys_of_has_false _ _ hk)) h)
   | updateLinkProperty g0 a b kind k v =>
-    simp only [step, updateLinkProperty]
+    simp only [step]
+    refine assertVal_pred (AllIn g) _ s _ h ?_
+    simp only [updateLinkProperty]
     split
     · exact h
     · exact withLink_pred (AllIn g) s g0 a b kind _ h (fun _ _ _ _ _ => h)
